@@ -1,4 +1,5 @@
 import RsMatterVerif.Lemmas.Dedup
+import RsMatterVerif.Lemmas.DedupGroup
 /-!
 # C04 — a message counter is accepted at most once per secure peer; newer ones always
 
@@ -160,6 +161,37 @@ theorem group_in_window_once (s : RxState) (c : Nat) (hs : s.synced = true) (hne
     rw [h2]
     unfold inWindow
     simp [tb_ins]
+
+/-- The ghost instrumentation (`stepG`: unbounded positions) does not change behaviour: erasing the
+ghost fields gives exactly `postRecvRoll`. -/
+theorem stepG_erases (g : G) (c : Nat) :
+    (stepG g c).2 = (postRecvRoll g.s c).2 ∧ (stepG g c).1.s = (postRecvRoll g.s c).1 := by
+  unfold stepG
+  cases h : (postRecvRoll g.s c).2 <;> simp only [h, Bool.false_eq_true, ↓reduceIte] <;>
+    (try split) <;> simp
+
+/-- the state of a group sender right after its trust-first message `first` -/
+def gInit (first : Nat) : G := { s := RxState.new first, P := first + U32, acc := [first + U32] }
+
+/-- **Clause 1 for a tracked group sender, whole histories**: as long as the sender's counter has
+advanced by less than a full cycle (2³²) since the trust-first message, no wire value is accepted
+twice (the trust-first message included). A 32-bit counter necessarily re-admits values after a
+full cycle, so the bound is the full strength available. -/
+theorem group_no_double_accept (first : Nat) (cs : List Nat) (hf : first < U32)
+    (hc : ∀ c ∈ cs, c < U32)
+    (hadv : (runG (gInit first) [first] cs).1.P - (first + U32) < U32) :
+    (runG (gInit first) [first] cs).2.Nodup := by
+  have h := runG_inv cs (gInit first) [first] (first + U32) hc (ginv_init first hf)
+    (by
+      have h0 : (first + U32) % U32 = first := by rw [U32_eq] at *; omega
+      simp only [gInit, List.map_cons, List.map_nil, h0])
+  rw [h.2]
+  exact nodup_map_mod _ (first + U32) _ h.1.range hadv h.1.nodup
+
+/-- Non-vacuity: a sender that rolls over (trust-first at 2³²−3, then 2, then the in-window
+2³²−2, then repeats) — accepted wire values are distinct and the hypotheses hold. -/
+example : (runG (gInit 4294967293) [4294967293] [2, 4294967294, 2, 4294967294, 4294967293]).2
+    = [4294967294, 2, 4294967293] := by decide
 
 /-! ## Group store: per-sender isolation, capacity -/
 
